@@ -242,12 +242,17 @@ class Interposer:
     """Replaces `loop.create_connection` on one loop: every connection attempt is recorded as
     {"host", "port", "server_hostname", "ssl": bool, "written": bytes} and answered with `response`."""
 
-    def __init__(self, loop: asyncio.AbstractEventLoop, response: bytes = b"20 text/plain\r\nok", responder=None):
+    def __init__(self, loop: asyncio.AbstractEventLoop, response: bytes = b"20 text/plain\r\nok", responder=None, connector=None):
         """`responder(record) -> (delay seconds, response bytes)` overrides the canned response: the answer may
-        depend on what the client wrote and arrive later, so that several fetches can be in flight at once."""
+        depend on what the client wrote and arrive later, so that several fetches can be in flight at once.
+        `connector(record) -> seconds`: how long the TCP connect of this connection takes.  As in asyncio's
+        `create_connection`, the protocol factory is called only AFTER the connect has completed (0 = the connect
+        completes at the next loop iteration, which is the least a real non-blocking connect takes); without a
+        connector the factory is called at once (a connection that is up before anything else can run)."""
         self.loop = loop
         self.response = response
         self.responder = responder
+        self.connector = connector
         self.records: list[dict[str, Any]] = []
         self._orig = loop.create_connection
         loop.create_connection = self._create_connection  # type: ignore[method-assign]
@@ -258,6 +263,8 @@ class Interposer:
     async def _create_connection(self, protocol_factory, host=None, port=None, *, ssl=None, server_hostname=None, **kw):
         rec: dict[str, Any] = {"host": host, "port": port, "server_hostname": server_hostname, "ssl": ssl is not None}
         self.records.append(rec)
+        if self.connector is not None:
+            await asyncio.sleep(max(0.0, self.connector(rec)))      # name resolution + TCP connect: other tasks run meanwhile
         proto = protocol_factory()
         tr = _RecTransport(rec)
         proto.connection_made(tr)
